@@ -37,6 +37,9 @@ class C05(Prop):
         "PylifeVerif.C05.hcm_model_eq_guideline",
         "PylifeVerif.C05.hcm_batch_eq_single",
         "PylifeVerif.C05.hcm_neg_mirror",
+        # the published literal: FKM guideline example 2.7.1 / table 2.24 (kernel evaluation)
+        "PylifeVerif.C05.fkm_guideline_example_2_7_1_code",
+        "PylifeVerif.C05.fkm_guideline_example_2_7_1",
     ]
     PARTIAL = {"PylifeVerif.C05.hcm_batch_eq_single_code": "batch = single is proved under SignPreserving (a law whose secondary branch follows the sign of the load range - true for every monotone law; both stub laws satisfy it); for a non-monotone law the per-column min/max selection by the first point's values can differ between points"}
     RULE = ("case = (load sequence of the first point, positive integer load ratios of 1-4 points, exact stub notch law); every column of "
@@ -77,15 +80,24 @@ class C05(Prop):
             s = [rng.choice(lv) for _ in range(n)]
             if not two_distinct(s):
                 continue
+            if rng.random() < 0.3:
+                # positive non-integer load factors: batch = alone needs no model (oracle only)
+                yield {"kind": "fratio", "law": rng.choice(["linear", "sat"]), "samples": s,
+                       "ratios": [1] + [rng.choice([1.3, 0.8, 0.37, 2.9, 1e-3, 7.25]) for _ in range(rng.randint(1, 3))],
+                       "labels": rng.choice(list(hcm.LABELS))}
             yield {"kind": "seq", "law": rng.choice(["linear", "sat"]), "samples": s, "ratios": rng.choice(RATIOS),
                    "labels": rng.choice(list(hcm.LABELS))}
 
     def model_lines(self, case):
+        if case["kind"] == "fratio":
+            return []
         t1, t2 = hcm.ref_feed(case["samples"])
         return [hcm.model_line(case["law"], case["samples"], case["ratios"]),
                 f"hcmg {case['law']} {len(t1)} {' '.join(map(str, t1 + t2))}"]
 
     def impl_lines(self, case):
+        if case["kind"] == "fratio":
+            return []
         det, rec, rows = rows_of(case["samples"], case["ratios"], case["law"], case.get("labels", "0..n-1"))
         st = self.stats
         st.setdefault("labels", {})
@@ -119,7 +131,24 @@ class C05(Prop):
         return (tuple(case["samples"]), tuple(case["ratios"]), case["law"])
 
     # ------------------------------------------------------------ oracle
+    def _oracle_fratio(self, case):
+        s, ratios, lawname = case["samples"], case["ratios"], case["law"]
+        self.stats["float_ratio_cases"] = self.stats.get("float_ratio_cases", 0) + 1
+        det, rec, rows = rows_of(s, ratios, lawname, case.get("labels", "0..n-1"))
+        for k, f in enumerate(ratios):
+            _d, _r, single = rows_of([float(x * f) for x in s], [1], lawname)
+            if len(single) != len(rows):
+                return (f"point {k} (factor {f}): {len(rows)} hystereses in the batch, {len(single)} alone (sequence {s})", "batch-vs-single")
+            for hb, hs in zip(rows, single):
+                for c in COLS + DERIVED + ["is_closed_hysteresis", "is_zero_mean_stress_and_strain", "run_index", "epsilon_min_LF", "epsilon_max_LF"]:
+                    a, b = hb[c][k], hs[c][0]
+                    if not (a == b or (a != a and b != b)):
+                        return (f"point {k} (factor {f}): column {c} is {a} in the batch and {b} alone (sequence {s}, factors {ratios}, law {lawname})", "batch-vs-single")
+        return None
+
     def oracle(self, case):
+        if case["kind"] == "fratio":
+            return self._oracle_fratio(case)
         s, ratios, lawname = case["samples"], case["ratios"], case["law"]
         det, rec, rows = rows_of(s, ratios, lawname, case.get("labels", "0..n-1"))
         n = len(ratios)
